@@ -358,3 +358,122 @@ def template_residue_names(mdtraj_dir):
         tree = etree.parse(os.path.join(mdtraj_dir, "formats", "pdb", "data", "residues.xml"))
         _TEMPLATES[mdtraj_dir] = {r.attrib["name"] for r in tree.getroot().findall("Residue")}
     return _TEMPLATES[mdtraj_dir]
+
+
+# --------------------------------------------------------------------------------------------- wider alphabet (appended)
+# builders used on a transformed topology, bond-creating methods, read-only queries
+
+
+def m_add_chain(F, chain_id):
+    G = fp_copy(F)
+    G["chains"].append((chain_id,))
+    return G
+
+
+def m_add_residue(F, name, resSeq, segment_id):
+    """add_residue(name, LAST chain, resSeq, segment_id); resSeq None -> 'the residue's sequential (0 based) index' (documented)"""
+    G = fp_copy(F)
+    G["residues"].append((name, len(F["residues"]) if resSeq is None else resSeq, segment_id, len(F["chains"]) - 1))
+    return G
+
+
+def m_add_atom(F, name, sym, serial):
+    """add_atom(name, element, LAST residue, serial)"""
+    G = fp_copy(F)
+    G["atoms"].append((name, sym, serial, len(F["residues"]) - 1))
+    return G
+
+
+def components(F):
+    """connected components of the bond graph: set of frozensets of atom positions (find_molecules)"""
+    n = len(F["atoms"])
+    parent = list(range(n))
+
+    def find(i):
+        while parent[i] != i:
+            parent[i] = parent[parent[i]]
+            i = parent[i]
+        return i
+    for (i, j, _, _) in F["bonds"]:
+        ri, rj = find(i), find(j)
+        if ri != rj:
+            parent[ri] = rj
+    comp = {}
+    for i in range(n):
+        comp.setdefault(find(i), set()).add(i)
+    return {frozenset(c) for c in comp.values()}
+
+
+def unique_pairs(a, b):
+    """select_pairs: unique unordered pairs {x, y}, x in a, y in b, x != y"""
+    return {frozenset((int(x), int(y))) for x in a for y in b if int(x) != int(y)}
+
+
+_BOND_TEMPLATES = {}
+
+
+def standard_bond_templates(mdtraj_dir):
+    """{residue name: [(from, to)]} of formats/pdb/data/residues.xml ('-X' = atom X of the previous residue of the chain)"""
+    if mdtraj_dir not in _BOND_TEMPLATES:
+        tree = etree.parse(os.path.join(mdtraj_dir, "formats", "pdb", "data", "residues.xml"))
+        _BOND_TEMPLATES[mdtraj_dir] = {r.attrib["name"]: [(b.attrib["from"], b.attrib["to"]) for b in r.findall("Bond")]
+                                       for r in tree.getroot().findall("Residue")}
+    return _BOND_TEMPLATES[mdtraj_dir]
+
+
+def m_standard_bonds(F, templates):
+    """create_standard_bonds: for every residue whose name has a template, every template bond whose two atom names are
+    present (in the residue, or for '-X' in the previous residue of the same chain).  -> (set of (i, j) pairs, unambiguous)
+    unambiguous = no residue involved carries an atom name twice (then 'the atom with that name' is well defined)."""
+    by_res = {}
+    for i, a in enumerate(F["atoms"]):
+        by_res.setdefault(a[3], []).append(i)
+    pairs, unambiguous = set(), True
+    for ri, res in enumerate(F["residues"]):
+        tpl = templates.get(res[0])
+        if not tpl:
+            continue
+        prev = ri - 1 if ri > 0 and F["residues"][ri - 1][3] == res[3] else None
+        for (fr, to) in tpl:
+            ends = []
+            for nm in (fr, to):
+                rr = ri
+                if nm.startswith("-"):
+                    if prev is None:
+                        ends = None
+                        break
+                    rr, nm = prev, nm[1:]
+                hits = [i for i in by_res.get(rr, []) if F["atoms"][i][0] == nm]
+                if not hits:
+                    ends = None
+                    break
+                if len(hits) > 1:
+                    unambiguous = False
+                ends.append(hits[-1])
+            if ends and ends[0] != ends[1]:
+                pairs.add((min(ends), max(ends)))
+    return pairs, unambiguous
+
+
+def m_disulfide(F, positions, cutoff=0.3):
+    """create_disulfide_bonds(positions): SG-SG pairs of CYS residues that have an SG and no HG, closer than 0.3 nm.
+    -> (pairs, margin_ok): margin_ok False when some distance is within 1e-6 of the cutoff (undecidable)"""
+    sgs = []
+    by_res = {}
+    for i, a in enumerate(F["atoms"]):
+        by_res.setdefault(a[3], []).append(i)
+    for ri, res in enumerate(F["residues"]):
+        if res[0] != "CYS":
+            continue
+        names = [F["atoms"][i][0] for i in by_res.get(ri, [])]
+        if "SG" in names and "HG" not in names:
+            sgs.append(by_res[ri][names.index("SG")])
+    pairs, ok = set(), True
+    for x in range(len(sgs)):
+        for y in range(x):
+            d = float(np.linalg.norm(np.asarray(positions[sgs[x]], float) - np.asarray(positions[sgs[y]], float)))
+            if abs(d - cutoff) < 1e-6:
+                ok = False
+            if d < cutoff:
+                pairs.add((min(sgs[x], sgs[y]), max(sgs[x], sgs[y])))
+    return pairs, ok
